@@ -9,7 +9,7 @@ CONFIG = ledger_config("C01", ["Sky/Props/C01.lean"], dict(
          "changes nothing. The model is tied to the code by replaying random histories on real nodes and comparing verdict and "
          "whole-state digest per op; on any difference the property predicate (sum of the node's reported unspent coins = genesis "
          "volume) is evaluated on the node's own output to produce the failing history.",
-    note="Proofs cover the non-arbitrating node configuration; ids/hashes/signature checks and Transaction.verify's verdict are "
+    note="Proofs cover both node configurations (ordinary and arbitrating publisher); ids/hashes/signature checks and Transaction.verify's verdict are "
          "supplied by the real code per op (WfSound hypothesis: accepted transactions have distinct inputs). bolt atomicity assumed.",
     technique="Lean 4 invariant proof by induction over histories + whole-state differential correspondence with real nodes",
 ))
